@@ -20,23 +20,25 @@ const T0: u64 = 1_700_000_000_000_000_000;
 const MS: u64 = 1_000_000;
 const SLACK: u64 = 3 * 10 * MS + MS;
 
-pub const KINDS: [&str; 8] = ["usleep(1ms)", "usleep(10ms)", "nanosleep(25ms)", "sleep(1s)", "read(peer writes at 15ms)", "compute(5 yields)", "cooperative delay(2s)", "write(one byte to the first reader's socket)"];
+pub const KINDS: [&str; 9] = ["usleep(1ms)", "usleep(10ms)", "nanosleep(25ms)", "sleep(1s)", "read(peer writes at 15ms)", "compute(5 yields)", "cooperative delay(2s)", "write(one byte to the first reader's socket)", "read(peer writes at 15ms) then sleep(1s)"];
 
 fn dur_of(k: usize) -> u64 {
-    [MS, 10 * MS, 25 * MS, 1000 * MS, 15 * MS, 0, 2000 * MS, 0][k]
+    [MS, 10 * MS, 25 * MS, 1000 * MS, 15 * MS, 0, 2000 * MS, 0, 1015 * MS][k]
 }
 
 #[derive(Clone, Debug)]
 pub struct Case {
     tasks: Vec<usize>,
+    /// core workers of the loop's pool (idle ones stay alive next to the blocked ones)
+    min_size: usize,
 }
 
 impl Case {
     fn to_json(&self) -> Value {
-        json!({"tasks": self.tasks.iter().map(|k| KINDS[*k]).collect::<Vec<_>>()})
+        json!({"tasks": self.tasks.iter().map(|k| KINDS[*k]).collect::<Vec<_>>(), "min_size": self.min_size})
     }
     fn from_json(v: &Value) -> Option<Case> {
-        Some(Case { tasks: v.get("tasks")?.as_array()?.iter().map(|k| KINDS.iter().position(|x| Some(*x) == k.as_str())).collect::<Option<Vec<_>>>()? })
+        Some(Case { tasks: v.get("tasks")?.as_array()?.iter().map(|k| KINDS.iter().position(|x| Some(*x) == k.as_str())).collect::<Option<Vec<_>>>()?, min_size: v.get("min_size").and_then(Value::as_u64).unwrap_or(0) as usize })
     }
 }
 
@@ -44,8 +46,29 @@ pub fn exec(c: &Case, em: &mut Emitter) {
     std::panic::set_hook(Box::new(|_| {}));
     open_coroutine_core::verif::clock_enable(T0);
     let n = c.tasks.len();
-    let mut lp = SyncLoop::new("c15-loop", 128 * 1024, 0, n + 1, 0).expect("loop");
+    let mut lp = SyncLoop::new("c15-loop", 128 * 1024, c.min_size, n + 1 + c.min_size, 0).expect("loop");
     lp.enter();
+    if c.min_size > 0 {
+        // bring the core workers up first: one yielding task per core worker. (A pool whose ONLY live
+        // worker is idle never hands the thread back - nothing else could run anyway; that quirk is
+        // not what this scenario is about, so there are always at least two workers alive.)
+        let up = Arc::new(std::sync::atomic::AtomicUsize::new(0));
+        for k in 0..c.min_size {
+            let up = up.clone();
+            let _ = lp.pool().submit_task(Some(format!("c15-warm-{k}")), move |_| {
+                SchedulableSuspender::current().expect("suspender").suspend();
+                let _ = up.fetch_add(1, std::sync::atomic::Ordering::SeqCst);
+                Some(0)
+            }, None, None);
+        }
+        for _ in 0..20 {
+            if up.load(std::sync::atomic::Ordering::SeqCst) == c.min_size {
+                break;
+            }
+            let _ = lp.wait_event(Some(SLICE));
+        }
+        open_coroutine_core::verif::clock_set(T0);
+    }
     // (start, end, extra) per task
     let out: Arc<Mutex<Vec<Option<(u64, u64, i64)>>>> = Arc::new(Mutex::new(vec![None; n]));
     let mut peers: Vec<(usize, i32)> = Vec::new();
@@ -85,9 +108,12 @@ pub fn exec(c: &Case, em: &mut Emitter) {
                         let _ = sc::nanosleep(None, &rq, std::ptr::null_mut());
                     }
                     3 => { let _ = sc::sleep(None, 1); }
-                    4 => {
+                    4 | 8 => {
                         let mut b = [0u8; 1];
                         extra = sc::read(None, rfd, b.as_mut_ptr().cast(), 1) as i64;
+                        if k == 8 {
+                            let _ = sc::sleep(None, 1);
+                        }
                     }
                     5 => {
                         for _ in 0..5 {
@@ -170,7 +196,9 @@ pub fn judge(c: &Case, res: &ChildResult, rep: &mut Report) {
                 return;
             }
         }
-        if d > 0 && !kind.starts_with("read") && (en - s) < d {
+        // a sleep never comes back early (a socket wait ends when its peer writes, whenever that is)
+        let sleep_part = if kind.contains("then sleep(1s)") { 1000 * MS } else if kind.starts_with("read") { 0 } else { d };
+        if sleep_part > 0 && (en - s) < sleep_part {
             rep.violation(&format!("c15.mix/wait-passes-on-the-loops-clock/{}", kind.split('(').next().unwrap()),
                 format!("{}: task {i} ({kind}) came back after {}ns of the loop's (virtual) time, before its wait of {d}ns was over: the wait did not go through the event loop", c.to_json(), en - s), replay());
             return;
@@ -209,7 +237,8 @@ pub fn cases(tier: &str) -> Vec<Case> {
     let mut out = Vec::new();
     fn rec(start: usize, cur: &mut Vec<usize>, maxn: usize, out: &mut Vec<Case>) {
         if !cur.is_empty() {
-            out.push(Case { tasks: cur.clone() });
+            out.push(Case { tasks: cur.clone(), min_size: 0 });
+            out.push(Case { tasks: cur.clone(), min_size: 2 });
         }
         if cur.len() == maxn {
             return;
@@ -226,7 +255,7 @@ pub fn cases(tier: &str) -> Vec<Case> {
 
 pub fn run(tier: &str, rep: &mut Report) {
     let cs = cases(tier);
-    rep.bounds = json!({"task_kinds": KINDS, "tasks_per_loop": if tier == "thorough" { "1..=4" } else { "1..=3" }, "cases": cs.len(), "slack_ns": SLACK, "workers": "max_size = tasks + 1"});
+    rep.bounds = json!({"task_kinds": KINDS, "tasks_per_loop": if tier == "thorough" { "1..=4" } else { "1..=3" }, "cases": cs.len(), "slack_ns": SLACK, "workers": "max_size = tasks + 1 + min_size", "min_size": [0, 2]});
     rep.require(&["cases_where_sum_exceeds_max", "cases_with_socket_wait"]);
     for c in cs.iter().step_by((cs.len() / 4).max(1)).take(4) {
         rep.sample(c.to_json());
